@@ -1040,16 +1040,22 @@ impl Value {
 
     unsafe fn get_object_header<'a>(&self) -> &'a mut ObjectHeader {
         debug_assert!(self.1.is_pointer());
+        #[cfg(feature = "verif")]
+        verif::check_live(self.0, "get_object_header");
         unsafe { &mut *(self.0 as *mut ObjectHeader) }
     }
 
     fn get_struct<'a>(&self, _vm: &mut VmGreenThread) -> &'a StructObject {
         self.check_type(_vm, ValueTag::Struct);
+        #[cfg(feature = "verif")]
+        verif::check_live(self.0, "get_struct");
         unsafe { &*(self.0 as *const StructObject) }
     }
 
     unsafe fn get_struct_mut<'a>(&self, _vm: &mut VmGreenThread) -> &'a mut StructObject {
         self.check_type(_vm, ValueTag::Struct);
+        #[cfg(feature = "verif")]
+        verif::check_live(self.0, "get_struct_mut");
         unsafe { &mut *(self.0 as *mut StructObject) }
     }
 
@@ -1058,6 +1064,8 @@ impl Value {
         Self: Sized,
     {
         self.check_type(_vm, ValueTag::Array);
+        #[cfg(feature = "verif")]
+        verif::check_live(self.0, "get_array");
         unsafe { &*(self.0 as *const ArrayObject) }
     }
 
@@ -1066,6 +1074,8 @@ impl Value {
         Self: Sized,
     {
         self.check_type(_vm, ValueTag::Array);
+        #[cfg(feature = "verif")]
+        verif::check_live(self.0, "get_array_mut");
         unsafe { &mut *(self.0 as *mut ArrayObject) }
     }
 
@@ -1074,6 +1084,8 @@ impl Value {
         Self: Sized,
     {
         self.check_type(_vm, ValueTag::Channel);
+        #[cfg(feature = "verif")]
+        verif::check_live(self.0, "get_channel");
         unsafe { &*(self.0 as *const ChannelObject) }
     }
 
@@ -1082,6 +1094,8 @@ impl Value {
         Self: Sized,
     {
         self.check_type(_vm, ValueTag::Channel);
+        #[cfg(feature = "verif")]
+        verif::check_live(self.0, "get_channel_mut");
         unsafe { &mut *(self.0 as *mut ChannelObject) }
     }
 
@@ -1090,11 +1104,15 @@ impl Value {
         Self: Sized,
     {
         self.check_type(_vm, ValueTag::Variant);
+        #[cfg(feature = "verif")]
+        verif::check_live(self.0, "get_variant");
         unsafe { &mut *(self.0 as *mut EnumObject) }
     }
 
     pub fn view_string<'a>(&self, _vm: &VmGreenThread) -> &'a str {
         self.check_type(_vm, ValueTag::String);
+        #[cfg(feature = "verif")]
+        verif::check_live(self.0, "view_string");
         let so = unsafe { &*(self.0 as *const StringObject) };
         &so.str
     }
@@ -1222,6 +1240,12 @@ struct ObjectHeader {
 
 impl ObjectHeader {
     unsafe fn dealloc(&mut self, heap_size: &mut usize) {
+        #[cfg(feature = "verif")]
+        if verif::quarantine_on() {
+            *heap_size -= self.nbytes();
+            verif::park(self as *mut ObjectHeader);
+            return;
+        }
         let kind = self.kind;
         match kind {
             ObjectKind::String => {
@@ -2479,6 +2503,10 @@ impl VmGreenThread {
     // GARBAGE COLLECTION
 
     pub fn maybe_gc(&mut self) {
+        #[cfg(feature = "verif")]
+        if self.verif_gc_dispatch() {
+            return;
+        }
         match self.gc_state {
             GcState::Idle => {
                 let threshold = self.last_gc_heap_size * GC_PAUSE_FACTOR;
@@ -2500,6 +2528,8 @@ impl VmGreenThread {
 
     // TODO: this is not very incremental.
     fn start_mark_phase(&mut self) {
+        #[cfg(feature = "verif")]
+        self.verif_on_cycle_start();
         // mark roots gray
         for v in self.value_stack.iter() {
             Self::mark(v, &mut self.gray_stack, self.gc_visited);
@@ -2529,6 +2559,8 @@ impl VmGreenThread {
     }
 
     fn process_gray(&mut self, batch: &mut usize) {
+        #[cfg(feature = "verif")]
+        self.verif_on_mark_increment();
         while *batch > 0
             && let Some(header_ptr) = self.gray_stack.pop()
         {
@@ -2596,12 +2628,18 @@ impl VmGreenThread {
             let header = unsafe { child.get_object_header() };
             if header.visited != self.gc_visited {
                 header.visited = self.gc_visited;
+                #[cfg(feature = "verif")]
+                verif::count_barrier_hit();
                 self.gray_stack.push(header);
             }
         }
     }
 
     fn sweep(&mut self, batch: usize) {
+        #[cfg(feature = "verif")]
+        self.verif_on_sweep_increment();
+        #[cfg(feature = "verif")]
+        let verif_reach = self.verif_reachable();
         if let GcState::Sweeping { index } = &mut self.gc_state {
             let mut work_done = 0;
 
@@ -2611,6 +2649,10 @@ impl VmGreenThread {
                 work_done += header.nbytes();
 
                 if header.visited != self.gc_visited {
+                    #[cfg(feature = "verif")]
+                    verif::check_unreachable(&verif_reach, header_ptr);
+                    #[cfg(feature = "verif")]
+                    verif::count_swept();
                     unsafe { header.dealloc(&mut self.heap_size) };
 
                     self.heap_list.swap_remove(*index);
@@ -2624,6 +2666,8 @@ impl VmGreenThread {
             if *index >= self.heap_list.len() {
                 self.gc_state = GcState::Idle;
                 self.last_gc_heap_size = self.heap_size;
+                #[cfg(feature = "verif")]
+                self.verif_on_cycle_end();
             }
         }
     }
@@ -2737,3 +2781,7 @@ impl Display for VmErrorKind {
         }
     }
 }
+
+#[cfg(feature = "verif")]
+#[path = "vm_verif.rs"]
+pub mod verif;
